@@ -49,13 +49,14 @@ def sh(cmd, cwd=None, timeout=900):
     return subprocess.run(cmd, shell=True, cwd=cwd, capture_output=True, text=True, timeout=timeout)
 
 
-def gen(work, count, seed):
+def gen(work, count, seed, skip=0):
     os.makedirs(work, exist_ok=True)
     wt = os.path.join(work, "wt")
     if not os.path.isdir(wt):
         sh("git -C /repo worktree add --detach -q %s HEAD" % wt)
     cands = candidates()
     random.Random(seed).shuffle(cands)
+    cands = cands[skip:]
     kept = 0
     idx = open(os.path.join(work, "index.tsv"), "a")
     tried = 0
@@ -69,8 +70,12 @@ def gen(work, count, seed):
         l = lines[i]
         lines[i] = l[:col] + b + l[col + len(a):]
         open(p, "w").write("\n".join(lines))
-        r = sh("cargo test --offline 2>&1 | grep -E '^test result|^error|FAILED|panicked' | head -20", cwd=wt, timeout=1200)
-        txt = r.stdout
+        try:
+            r = sh("timeout 300 cargo test --offline 2>&1 | grep -E '^test result|^error|FAILED|panicked' | head -20", cwd=wt, timeout=1200)
+            txt = r.stdout
+        except subprocess.TimeoutExpired:
+            txt = "FAILED (timeout)"
+        sh("pkill -f %s/target/debug/deps" % wt)
         ok = txt.count("test result: ok") >= 7 and "FAILED" not in txt and "error" not in txt
         desc = "%s:%d  %r -> %r   | %s" % (f, i + 1, a, b, l.strip()[:110])
         if ok:
@@ -132,6 +137,6 @@ def run(work, outp):
 
 if __name__ == "__main__":
     if sys.argv[1] == "gen":
-        gen(sys.argv[2], int(sys.argv[3]), int(sys.argv[4]) if len(sys.argv) > 4 else 1)
+        gen(sys.argv[2], int(sys.argv[3]), int(sys.argv[4]) if len(sys.argv) > 4 else 1, int(sys.argv[5]) if len(sys.argv) > 5 else 0)
     else:
         run(sys.argv[2], sys.argv[3])
